@@ -63,6 +63,7 @@ theorem seen_sound {i : SInfo} {s : Shape} (h : i.γ s) : i.seen.γ s := by
   cases hsz : i.size with
   | known n => simpa [hsz] using hz
   | atMost n => simpa [hsz] using hz
+  | knownB n b => simp only [hsz, SizeK.γ] at hz; simpa [SizeK.γ] using hz.1
   | any =>
     cases hsh : i.shape with
     | const l => simp only [hsh, ShapeK.γ] at hs; subst hs; simp [SizeK.γ]
@@ -95,6 +96,13 @@ theorem indexingInfo_sound {d : ShapeK} {z : SizeK} {t : Shape} (hd : d.γ t) (h
     | boundedDim k => simpa using hz
     | dyn => simpa using hz
   | any =>
+    cases d with
+    | const l => simp only [ShapeK.γ] at hd; subst hd; simp [SizeK.γ]
+    | clipped b => simpa [SizeK.γ] using (show LeAll t b from hd).prod_le
+    | fixedDim k => simp [SizeK.γ]
+    | boundedDim k => simp [SizeK.γ]
+    | dyn => simp [SizeK.γ]
+  | knownB n b =>
     cases d with
     | const l => simp only [ShapeK.γ] at hd; subst hd; simp [SizeK.γ]
     | clipped b => simpa [SizeK.γ] using (show LeAll t b from hd).prod_le
